@@ -178,6 +178,10 @@ def check_roles(ctx, db, rid, only_functions=None, only_objects=None, floor=1):
         if ent is None and (rel(success_order(e)) and acq(success_order(e))):
             # an operation the table does not know, but with an order (acq_rel / seq_cst) that satisfies every role
             ent = ('pubcons', 'not in the role table; its order satisfies the strictest role')
+        if ent is None and key[1] in ('store', 'operator=') and rel(success_order(e)):
+            ent = ('publish', 'not in the role table; a store can at most publish, and it releases')
+        if ent is None and key[1] in ('load', 'wait') and acq(success_order(e)):
+            ent = ('consume', 'not in the role table; a load can at most consume, and it acquires')
         if ent is None:
             unclassified.append('%s %s on %s at %s' % key[:3] + (relloc(e['loc']),) if False else '%s: %s on %s at %s' % (key[0], key[1], key[2], relloc(e['loc'])))
             continue
